@@ -28,6 +28,7 @@ type edit struct {
 	// and the lowest offset changed (vacuity guard of the long-field sweep)
 	isArg, isType bool
 	off           int
+	junkKey       string // junk.go: inserted byte string and kind of position
 }
 
 const b64alphabet = "ABCDEFGHIJKLMNOPQRSTUVWXYZabcdefghijklmnopqrstuvwxyz0123456789+/"
